@@ -32,6 +32,11 @@ def lattice_geometry(rng: random.Random, general: bool = True) -> Geometry:
     sp = [sorted(rng.sample([0.0, 0.8, 1.0, 1.7, 2.3, 3.0], 3)) for _ in range(3)]
     rot, org = _rand_frame(rng)
     scale = 10 ** rng.uniform(-1.5, 1.5) if general else 1.0
+    if general and rng.random() < 0.2:
+        # geo-referenced model: coordinates five to six orders of magnitude above the block size (map coordinates); the merge
+        # tolerance, and whatever else is compared with it, is an absolute length
+        org = [rng.choice([-1, 1]) * rng.uniform(2e5, 5e5) for _ in range(3)]
+        scale = 10 ** rng.uniform(-0.5, 0.5)
     coords = {}
     for x in range(3):
         for y in range(3):
@@ -234,7 +239,7 @@ def gen_program(rng: random.Random, focus: str, pid: int) -> dict:
             "reassemble": rng.random() < 0.3, "reuse": rng.random() < 0.35,
             "pkind": [[k, v] for k, v in pkind.items()], "psettings": [[k, v] for k, v in pset.items()],
             "geom": geom, "geom_calls": geom_calls, "settings": prog_settings, "exp_settings": settings, "unique_face_labels": unique,
-            "builtin": False, "count": 2}
+            "builtin": False, "count": 2, "corner_lists": rng.random() < 0.5, "corners_first": rng.random() < 0.5}
 
 
 def reuse_in_second_mesh(prog: dict, lofts: list, geo: Geometry, ctx: Ctx, rng: random.Random) -> Optional[dict]:
